@@ -70,16 +70,40 @@ def clean(p):
         os.remove(p)
 
 
-def run_cli(ctx, cli, o, inp, alt, tag):
+def run_cli(ctx, cli, o, inp, alt, tag, env=("file", "file", "abs")):
+    """runs option vector o; env = (kind of file behind -i, kind behind -o, spelling of the output location) - see Cli.tla"""
+    import subprocess
+    src, dst, spell = env
     if o["cmd"] == "cgr" and o["k"] == -1:
         inp = inp + ".clean.fa"       # whole-sequence CGR refuses non-nucleotide bytes (C11): give it clean records
     out = ctx.path("cli_%s" % tag)
     clean(out)
-    a = args_of(o, inp, out, alt)
-    stdin = open(inp, "rb") if o.get("stdin") else None
-    p = vlib.sh([cli] + a, timeout=600, stdin=stdin)
+    rel = os.path.relpath(out, ctx.rundir)
+    out_arg = {"abs": out, "rel": rel, "dotrel": "./" + rel}[spell]
+    in_arg, stdin, feeder, ff = inp, None, None, None
+    if o.get("stdin"):
+        stdin = open(inp, "rb")
+    elif src == "fifo":
+        ff = ctx.path("fifo_%s.fa" % tag)
+        clean(ff)
+        os.mkfifo(ff)
+        feeder = subprocess.Popen(["sh", "-c", 'cat "$0" > "$1"', inp, ff])
+        in_arg = ff
+    elif src == "devstdin":
+        stdin = open(inp, "rb")
+        in_arg = "/dev/stdin"
+    if dst == "pipe":
+        out_arg = "/dev/stdout"
+    p = vlib.sh([cli] + args_of(o, in_arg, out_arg, alt), timeout=600, stdin=stdin, cwd=ctx.rundir)
     if stdin:
         stdin.close()
+    if feeder:
+        feeder.kill()
+        feeder.wait()
+        os.remove(ff)
+    if dst == "pipe" and p.returncode == 0:
+        with open(out, "wb") as f:
+            f.write(p.stdout or b"")
     return p, out
 
 
@@ -124,6 +148,9 @@ def run(ctx):
         # refused vectors cost milliseconds: take many more of them
         if not key[1]:
             share = share * (6 if ctx.thorough() else 3)
+        else:
+            # accepted vectors are the ones that exercise the wiring (and the environment rotation): a floor per subcommand
+            share = max(share, 500 if ctx.thorough() else 130)
         chosen += rest[:max(0, share - len(seen) // 3)]
     cli = vlib.build_cli()
     vlib.build_harness()
@@ -137,11 +164,16 @@ def run(ctx):
     def one(iv):
         i, v = iv
         o = v["o"]
-        p, out = run_cli(ctx, cli, o, inp, alt, "v%d" % i)
+        # the environment rotates through what the command supports (Cli!SrcKinds / DstKinds / Spellings); a refused vector is
+        # refused in any environment, but only a regular output file can show that nothing was produced
+        src = v["src"][i % len(v["src"])]
+        dst = v["dst"][(i // 2) % len(v["dst"])] if v["accept"] else "file"
+        spell = v["spell"][(i // 3) % len(v["spell"])]
+        p, out = run_cli(ctx, cli, o, inp, alt, "v%d" % i, (src, dst, spell))
         rf = result_file(o, out)
         created = os.path.exists(rf)
         refused = (p.returncode != 0) or (len(p.stderr.strip()) > 0 and not created)
-        events = [{"ev": "cli", "o": o, "refused": 1 if refused else 0, "created": 1 if created else 0, "exit": p.returncode,
+        events = [{"ev": "cli", "o": o, "env": [src, dst, spell], "refused": 1 if refused else 0, "created": 1 if created else 0, "exit": p.returncode,
                    "stderr": p.stderr.decode(errors="replace")[:120]}]
         if v["accept"] and created:
             lo = ctx.path("lib_v%d" % i)
